@@ -1983,3 +1983,266 @@ Proof.
   - rewrite (map_keys (m16_mark b) _ (m16_mark_conn b)), put_keys_new by exact FT.
     rewrite (map_keys _ conns (takeover_conn k [] c p e)). reflexivity.
 Qed.
+
+(* ---------- case: a connection is accepted - the invariant ---------- *)
+Definition same_but_status (y yf : sconn) : Prop :=
+  x_conn yf = x_conn y /\ x_id yf = x_id y /\ x_ver yf = x_ver y /\ x_clean yf = x_clean y /\ x_will yf = x_will y /\
+  x_delay yf = x_delay y /\ x_req yf = x_req y.
+
+Lemma pc_frame4 k s s' h0 b y yf oy py o' :
+  pcr k s h0 y oy py -> same_but_status y yf ->
+  get_obj (x_conn y) (st_objs s') = Some o' -> o_id o' = o_id oy -> o_ver o' = o_ver oy -> x_open yf = o_open o' ->
+  (x_open yf = true -> o_sei o' = o_sei oy /\ x_open y = true /\ (x_wst yf = WNone \/ x_wst yf = WArmed)) ->
+  (o_will o' = o_will oy \/ w_flag (o_will o') = false) ->
+  (forall id d, In (id, d) (st_wills s') -> d_conn d = x_conn y -> In (id, d) (st_wills s)) ->
+  (forall xv, view_of k (x_conn y) None h0 = Some xv -> view_step k (x_conn y) (Some xv) b = Some xv) ->
+  status_ok k s' (h0 ++ [b]) py o' yf ->
+  pc k s' (h0 ++ [b]) yf.
+Proof.
+  intros [G PA I V OV CL WI DL OP LV FL EN (xv & VW & VX) SN ST] (EC & EI & EV & ECl & EW & ED & ER) G' KI1 KV XO' LV' WW SUB VS ST'.
+  exists o', py. split; try (rewrite ?EC, ?EI, ?EV, ?ECl, ?EW, ?ED, ?ER; congruence); try assumption.
+  - rewrite EC, params_of_app, PA. reflexivity.
+  - intro XO. destruct (LV' XO) as (A & B & C). destruct (LV B) as (A1 & B1 & _). rewrite ER. split; [exact A1|split; [congruence|exact C]].
+  - intro F'. destruct WW as [WW|WW]; [|congruence]. rewrite WW in *. apply FL, F'.
+  - intros id d II DC. rewrite EC in DC. apply (EN id d); [apply SUB; assumption|exact DC].
+  - exists xv. rewrite EC, EV, ECl, ER, ED, EI. split; [|exact VX]. rewrite view_of_app, VW. cbn [view_of]. apply VS, VW.
+Qed.
+
+Lemma takeover_same k ws c p e y : same_but_status y (m16_takeover k ws c p e y) /\ x_open (m16_takeover k ws c p e y) = x_open y.
+Proof.
+  unfold m16_takeover, same_but_status. destruct (_ && _); [|auto 10]. destruct (x_wst y); auto 10.
+  - destruct (x_open y) eqn:XO; [|auto 10]. destruct (_ && _); cbn; rewrite ?XO; auto 10.
+  - destruct (cp_clean p); [|cbn; auto 10]. destruct (published_in ws (x_conn y)); cbn; auto 10.
+Qed.
+
+Lemma mark_same b z : same_but_status z (m16_mark b z) /\ x_wst (m16_mark b z) = x_wst z /\
+  x_open (m16_mark b z) = x_open z && negb (memN (x_conn z) (closes (b_outs b))).
+Proof.
+  unfold m16_mark, same_but_status. destruct (x_open z) eqn:XO; cbn [andb].
+  - destruct (memN (x_conn z) (closes (b_outs b))); cbn; rewrite ?XO; auto 12.
+  - rewrite XO. auto 12.
+Qed.
+
+Lemma same_but_trans a b c : same_but_status a b -> same_but_status b c -> same_but_status a c.
+Proof. unfold same_but_status. intros (A1 & A2 & A3 & A4 & A5 & A6 & A7) (B1 & B2 & B3 & B4 & B5 & B6 & B7). repeat split; congruence. Qed.
+
+Lemma capN_zero k : capN k 0 = 0.
+Proof. unfold capN. destruct (k_maxsei k <? 0) eqn:E; [apply N.ltb_lt in E; lia|reflexivity]. Qed.
+
+Lemma capN_pos k v : 0 < capN k v -> 0 < v.
+Proof. unfold capN. destruct (k_maxsei k <? v) eqn:E; [apply N.ltb_lt in E; lia|auto]. Qed.
+
+Lemma pc_new k s' h0 b c now p e sp n2 xn :
+  params_of c h0 = None -> view_of k c None h0 = None -> (cp_ver p <> 5 -> cp_willdelay p = 0) ->
+  b_op b = OConnect c now p true e -> success_connack (pkts_to c (b_outs b)) = Some sp ->
+  get_obj c (st_objs s') = Some n2 -> o_id n2 = e -> o_ver n2 = cp_ver p -> o_sei n2 = capN k (o_sei (parse_connect c p e)) ->
+  o_open n2 = true -> o_will n2 = o_will (parse_connect c p e) ->
+  (forall id d, In (id, d) (st_wills s') -> d_conn d <> c) ->
+  same_but_status (x_new k c p e) xn -> x_open xn = true -> x_wst xn = x_wst (x_new k c p e) ->
+  pc k s' (h0 ++ [b]) xn.
+Proof.
+  intros PN VN SN BOP SC G2 I2 V2 S2 O2 W2 NOE (EC & EI & EV & ECl & EW & ED & ER) XO XS.
+  cbn [x_conn x_id x_ver x_clean x_will x_delay x_req x_new] in *.
+  exists n2, p. split; try congruence.
+  - rewrite EC, params_of_app, PN. cbn [params_of]. rewrite BOP, N.eqb_refl. reflexivity.
+  - rewrite EW. reflexivity.
+  - rewrite ED. reflexivity.
+  - intros _. rewrite ER. split; [reflexivity|]. split.
+    + rewrite S2. cbn [o_sei parse_connect]. unfold req0. destruct (cp_seiflag p); [reflexivity|apply capN_zero].
+    + rewrite XS. cbn [x_wst x_new]. destruct (cp_willflag p); auto.
+  - intro FL. rewrite W2 in *. cbn [o_will parse_connect] in *. destruct (cp_willflag p); [|discriminate FL]. split; [reflexivity|]. split; [reflexivity|].
+    cbn [w_delay]. unfold stored_delay. destruct (cp_ver p =? 5) eqn:V5; cbn [negb]; [reflexivity|].
+    rewrite (SN ltac:(intro H; rewrite H in V5; discriminate)). destruct (cp_seiflag p && (cp_sei p <? 0)) eqn:E; [|reflexivity].
+    apply andb_true_iff in E. destruct E as [_ E]. apply N.ltb_lt in E. lia.
+  - intros id d II DC. rewrite EC in DC. destruct (NOE id d II DC).
+  - exists (x_new k c p e). rewrite EC, EV, ECl, ER, ED, EI. split; [|auto 10].
+    rewrite view_of_app, VN. cbn [view_of]. unfold view_step. rewrite BOP, N.eqb_refl, SC. reflexivity.
+  - exact SN.
+  - unfold status_ok. rewrite XS. cbn [x_wst x_new]. destruct (cp_willflag p) eqn:WF; [exact XO|]. split.
+    + rewrite W2. cbn [o_will parse_connect]. rewrite WF. reflexivity.
+    + intros (id & d & II & DC). rewrite EC in DC. destruct (NOE id d II DC).
+Qed.
+
+Lemma held_stopped_fields eo now :
+  o_id (held (stopped eo now)) = o_id eo /\ o_ver (held (stopped eo now)) = o_ver eo /\ o_sei (held (stopped eo now)) = o_sei eo /\
+  o_open (held (stopped eo now)) = false /\ o_will (held (stopped eo now)) = o_will eo /\
+  o_phase (held (stopped eo now)) = (match o_phase eo with PhReading => PhHeld | ph => ph end).
+Proof.
+  unfold held. destruct (stopped_fields eo now) as (A & B & C & D).
+  assert (PS : o_phase (stopped eo now) = o_phase eo) by (unfold stopped; destruct (o_open eo); reflexivity).
+  assert (SS : o_sei (stopped eo now) = o_sei eo) by (unfold stopped; destruct (o_open eo); reflexivity).
+  rewrite PS, C. cbn [negb andb]. destruct (o_phase eo) eqn:PH; cbn; rewrite ?A, ?B, ?C, ?D, ?PS, ?SS, ?PH; auto 10.
+Qed.
+
+Lemma tol_here s b c now p a e sp eo h0 :
+  wf s -> b_op b = OConnect c now p a e -> b_pre b = snap_of s -> success_connack (pkts_to c (b_outs b)) = Some sp ->
+  client_of s e = Some eo -> o_open eo = true -> o_conn eo <> c -> taken_over_live (o_conn eo) (h0 ++ [b]) = true.
+Proof.
+  intros W BOP BPRE SC CO OO NE. rewrite tol_app. apply orb_true_iff. right. cbn [taken_over_live]. rewrite BOP, SC, BPRE.
+  destruct (client_of_reg s e eo W CO) as (A & G & _). rewrite (find_client_snap s e W), A, G. cbn [option_map sclient_of sc_conn sc_open].
+  rewrite N.eqb_refl, OO. destruct (c =? o_conn eo) eqn:E; [apply N.eqb_eq in E; congruence|reflexivity].
+Qed.
+
+Lemma cancel_delay_pos k p z : 0 < minN (delay0 p) (if cp_ver p =? 5 then req0 k p else z) -> 0 < stored_delay p.
+Proof.
+  unfold delay0, stored_delay, req0, minN. destruct (cp_ver p =? 5); cbn [negb].
+  2:{ destruct (0 <? z); lia. }
+  destruct (cp_seiflag p); cbn [andb].
+  - destruct (cp_sei p <? cp_willdelay p) eqn:LT.
+    + destruct (cp_willdelay p <? capN k (cp_sei p)) eqn:L2; [intros _|intro H; apply (capN_pos k), H].
+      apply N.ltb_lt in L2. apply (capN_pos k). lia.
+    + destruct (cp_willdelay p <? capN k (cp_sei p)); lia.
+  - destruct (cp_willdelay p <? 0); lia.
+Qed.
+
+Lemma ki_accept k m s h0 s' outs b c now p e sp :
+  KI k m s h0 -> (cp_ver p <> 5 -> cp_willdelay p = 0) -> b_op b = OConnect c now p true e -> b_outs b = outs -> b_pre b = snap_of s ->
+  hasobj s c = false -> memN c (st_used s) = false -> success_connack (pkts_to c outs) = Some sp -> maccept k s (s', outs) c now p e ->
+  inv s' -> wwf s' ->
+  (forall c, memN c (st_used s') = false -> params_of c (h0 ++ [b]) = None /\ view_of k c None (h0 ++ [b]) = None) ->
+  KI k (fst (m16_step k (length h0) m b)) s' (h0 ++ [b]) /\
+  Forall (fun v => v_step v = length h0 /\ expl k (h0 ++ [b]) b v) (snd (m16_step k (length h0) m b)).
+Proof.
+  intros [V WW ND KX KO KF] SN BOP BO BPRE HS MU SC ((n2 & G2 & I2 & V2 & S2 & O2 & P2 & W2) & MA & T & WSm) V' WW' KF'.
+  cbn [fst snd] in *. destruct V as [W X].
+  assert (FN : find_x c (d_conns m) = None).
+  { destruct (find_x c (d_conns m)) as [x|] eqn:F; [|reflexivity]. destruct (KX c x F) as (ox & px & P).
+    pose proof (pc_get _ _ _ _ _ _ P) as G. rewrite (find_x_conn _ _ _ F) in G. unfold hasobj in HS. rewrite G in HS. discriminate. }
+  destruct (KF c MU) as [PN VN].
+  rewrite <- BO in SC, WSm, MA.
+  destruct (accept_spec k (length h0) m b c now p true e sp BOP SC WSm FN) as (FF & KK & VV).
+  assert (SUBW : forall id d, In (id, d) (st_wills s') -> In (id, d) (st_wills s) /\ id <> e).
+  { intros id d II. rewrite T in II. apply in_adel in II. exact II. }
+  assert (NOC : forall id d, In (id, d) (st_wills s') -> d_conn d <> c).
+  { intros id d II E. destruct (SUBW id d II) as [I0 _]. destruct (ww_done s WW id d I0) as (od & Gd & _).
+    rewrite E in Gd. unfold hasobj in HS. rewrite Gd in HS. discriminate. }
+  assert (GONE : forall c' oc, get_obj c' (st_objs s) = Some oc -> o_id oc = e -> ~ srcE s' c').
+  { intros c' oc GC IE (id & d & II & DC). destruct (SUBW id d II) as [I0 NE]. destruct (ww_done s WW id d I0) as (od & Gd & Id & _).
+    rewrite DC, GC in Gd. inversion Gd; subst od. congruence. }
+  set (cl := closes (b_outs b)).
+  assert (OTH : forall c', c' <> c -> (forall eo, client_of s e = Some eo -> c' <> o_conn eo) ->
+                option_map wk (get_obj c' (st_objs s')) = option_map wk (get_obj c' (st_objs s))).
+  { intros c' N1 N2. destruct (client_of s e) as [eo|]; [destruct MA as (OT & _); apply OT; [exact N1|apply N2; reflexivity]|destruct MA as (OT & _); apply OT, N1]. }
+  assert (CLS : forall c', memN c' cl = true -> exists eo, client_of s e = Some eo /\ c' = o_conn eo /\ o_open eo = true).
+  { intros c' M. apply memN_true in M. destruct (client_of s e) as [eo|].
+    - destruct MA as (_ & _ & CL). unfold cl in M. rewrite CL in M. destruct (o_open eo) eqn:OO; [|destruct M]. destruct M as [<-|[]]. exists eo. auto.
+    - destruct MA as (_ & CL). unfold cl in M. rewrite CL in M. destruct M. }
+  assert (CLS2 : forall eo, client_of s e = Some eo -> o_open eo = true -> memN (o_conn eo) cl = true).
+  { intros eo CO OO. rewrite CO in MA. destruct MA as (_ & _ & CL). unfold cl. rewrite CL, OO. apply memN_true. left. reflexivity. }
+  assert (TKO : forall eo, client_of s e = Some eo -> exists o', get_obj (o_conn eo) (st_objs s') = Some o' /\ wk o' = wk (held (stopped eo now))).
+  { intros eo CO. rewrite CO in MA. destruct MA as (_ & H & _). exact H. }
+  assert (NCC : memN c cl = false).
+  { destruct (memN c cl) eqn:M; [|reflexivity]. destruct (CLS c M) as (eo & CO & EE & _). destruct (client_of_reg s e eo W CO) as (_ & GE & _).
+    rewrite <- EE in GE. unfold hasobj in HS. rewrite GE in HS. discriminate. }
+  split.
+  - split; [exact V'|exact WW'| | | |exact KF'].
+    + rewrite KK. apply nodup_snoc; [exact ND|apply find_none_keys, FN].
+    + intros c' yf FY. rewrite FF in FY. destruct (c' =? c) eqn:EQ.
+      * apply N.eqb_eq in EQ. subst c'. inversion FY; subst yf. clear FY.
+        destruct (mark_same b (x_new k c p e)) as (SB & XS & XO). cbn [x_conn x_new x_open] in XO. fold cl in XO. rewrite NCC in XO.
+        apply (pc_new k s' h0 b c now p e sp n2 _ PN VN SN BOP SC G2 I2 V2 S2 O2 W2 NOC SB XO XS).
+      * apply N.eqb_neq in EQ. destruct (find_x c' (d_conns m)) as [y|] eqn:FY0; [|discriminate]. cbn [option_map] in FY. inversion FY; subst yf. clear FY.
+        destruct (KX c' y FY0) as (oy & py & PY). pose proof (find_x_conn _ _ _ FY0) as YC. pose proof (pc_get _ _ _ _ _ _ PY) as GY. rewrite YC in GY.
+        set (y1 := m16_takeover k [] c p e y).
+        destruct (takeover_same k [] c p e y) as (SB1 & XO1). fold y1 in SB1, XO1.
+        destruct (mark_same b y1) as (SB2 & XS2 & XO2).
+        pose proof (same_but_trans _ _ _ SB1 SB2) as SB. pose proof (pc_st _ _ _ _ _ _ PY) as ST. unfold status_ok in ST. rewrite YC in ST.
+        assert (Y1C : x_conn y1 = c') by (destruct SB1 as (A & _); congruence).
+        assert (VS : forall xv, view_of k (x_conn y) None h0 = Some xv -> view_step k (x_conn y) (Some xv) b = Some xv).
+        { intros xv _. unfold view_step. rewrite BOP, YC. destruct (c =? c') eqn:E2; [apply N.eqb_eq in E2; congruence|reflexivity]. }
+        assert (SUBY : forall id d, In (id, d) (st_wills s') -> d_conn d = x_conn y -> In (id, d) (st_wills s)) by (intros id d II _; apply SUBW, II).
+        assert (CASES : (exists eo, client_of s e = Some eo /\ c' = o_conn eo) \/ (forall eo, client_of s e = Some eo -> c' <> o_conn eo)).
+        { destruct (client_of s e) as [eo|]; [|right; intros eo H; discriminate H]. destruct (N.eq_dec c' (o_conn eo)) as [E|NE]; [left; exists eo; auto|].
+          right. intros eo' H. inversion H; subst. exact NE. }
+        destruct CASES as [(eo & CO & EE)|NR].
+        -- (* the connection registered under the identifier: taken over *)
+           destruct (client_of_reg s e eo W CO) as (AE & GE & IE). rewrite <- EE in GE. rewrite GY in GE. inversion GE; subst oy. clear GE.
+           destruct (TKO eo CO) as (o' & G' & EW). rewrite <- EE in G'.
+           destruct (wk_fields _ _ EW) as (KI1 & KV & KS & KO' & KP & KW). destruct (held_stopped_fields eo now) as (H1 & H2 & H3 & H4 & H5 & H6).
+           rewrite H1 in KI1. rewrite H2 in KV. rewrite H3 in KS. rewrite H4 in KO'. rewrite H5 in KW. rewrite H6 in KP.
+           assert (XOF : x_open (m16_mark b y1) = false).
+           { rewrite XO2, XO1, Y1C. fold cl. destruct (x_open y) eqn:XY; [|reflexivity]. rewrite (pc_open _ _ _ _ _ _ PY) in XY. rewrite EE, (CLS2 eo CO XY). reflexivity. }
+           assert (NSE : ~ srcE s' c') by (apply (GONE c' eo GY IE)).
+           assert (CND : beq_bytes (x_id y) e && negb (x_conn y =? c) = true).
+           { rewrite (pc_id _ _ _ _ _ _ PY), IE, bb_refl, YC. destruct (c' =? c) eqn:E2; [apply N.eqb_eq in E2; congruence|reflexivity]. }
+           pose proof G' as G'y. rewrite <- YC in G'y.
+           refine (pc_frame4 k s s' h0 b y _ eo py o' PY SB G'y KI1 KV (eq_trans XOF (eq_sym KO')) _ (or_introl KW) SUBY VS _).
+           ++ intro H. congruence.
+           ++ unfold status_ok. rewrite XS2. destruct SB as (CF & _). rewrite CF, YC.
+              destruct (x_wst y) as [| | |t due0| | | |] eqn:XS.
+              ** assert (Y1E : y1 = y) by (unfold y1, m16_takeover; rewrite CND, XS; reflexivity). rewrite Y1E, XS.
+                 destruct ST as [NF _]. split; [congruence|exact NSE].
+              ** assert (OO : o_open eo = true) by (rewrite <- (pc_open _ _ _ _ _ _ PY); exact ST).
+                 destruct (wf_open s W c' eo GY OO) as (_ & PR & _). rewrite PR in KP.
+                 destruct (pc_live _ _ _ _ _ _ PY ST) as (RQ & _ & _).
+                 assert (TOL : taken_over_live c' (h0 ++ [b]) = true) by (rewrite EE; apply (tol_here s b c now p true e sp eo h0 W BOP BPRE SC CO OO); congruence).
+                 assert (Y1E : y1 = if negb (cp_clean p) && (0 <? minN (x_delay y) (eff k y)) then set_wst y WCancelled else set_wst y WMust)
+                   by (unfold y1, m16_takeover; rewrite CND, XS, ST; reflexivity).
+                 rewrite Y1E. destruct (negb (cp_clean p) && (0 <? minN (x_delay y) (eff k y))) eqn:CN; cbn [x_wst set_wst x_with].
+                 --- intros _. split; [exact TOL|]. intros [FL _]. rewrite KW in FL |- *. destruct (pc_flag _ _ _ _ _ _ PY FL) as (_ & _ & WD). rewrite WD.
+                     apply andb_true_iff in CN. destruct CN as [_ CN]. apply N.ltb_lt in CN.
+                     rewrite (pc_delay _ _ _ _ _ _ PY) in CN. unfold eff in CN. rewrite (pc_ver _ _ _ _ _ _ PY), RQ in CN.
+                     apply (cancel_delay_pos k py _ CN).
+                 --- split; [exact KP|exact TOL].
+              ** assert (Y1E : y1 = y) by (unfold y1, m16_takeover; rewrite CND, XS; reflexivity). rewrite Y1E, XS.
+                 destruct ST as [PHH TOL]. rewrite PHH in KP. split; [exact KP|apply tol_mono, TOL].
+              ** assert (Y1E : y1 = if cp_clean p then set_wst y WFailed else set_wst y WCancelled)
+                   by (unfold y1, m16_takeover; rewrite CND, XS; reflexivity).
+                 rewrite Y1E. destruct ST as (PD & _). rewrite PD in KP. destruct (cp_clean p); cbn [x_wst set_wst x_with].
+                 --- split; [exact KP|]. intro H. contradiction.
+                 --- intros [[_ AR]|H]; [congruence|contradiction].
+              ** assert (Y1E : y1 = y) by (unfold y1, m16_takeover; rewrite CND, XS; reflexivity). rewrite Y1E, XS.
+                 destruct ST as [PD _]. rewrite PD in KP. split; [exact KP|exact NSE].
+              ** assert (Y1E : y1 = y) by (unfold y1, m16_takeover; rewrite CND, XS; reflexivity). rewrite Y1E, XS.
+                 destruct ST as [PD _]. rewrite PD in KP. split; [exact KP|exact NSE].
+              ** assert (Y1E : y1 = y) by (unfold y1, m16_takeover; rewrite CND, XS; reflexivity). rewrite Y1E, XS.
+                 intros [AR|H]; [|contradiction]. destruct AR as [FL PHN]. rewrite KW in FL.
+                 assert (AR0 : is_armed eo) by (split; [exact FL|intro PD; rewrite PD in KP; congruence]).
+                 destruct (ST (or_introl AR0)) as [TOL D]. split; [apply tol_mono, TOL|]. intros _. rewrite KW. apply D, AR0.
+              ** assert (Y1E : y1 = y) by (unfold y1, m16_takeover; rewrite CND, XS; reflexivity). rewrite Y1E, XS.
+                 destruct ST as [PD _]. rewrite PD in KP. split; [exact KP|]. intro H. contradiction.
+        -- (* any other connection *)
+           destruct (wk_obj_fwd s s' _ oy (OTH c' EQ NR) GY) as (oy' & GY' & EY). destruct (wk_wkn _ _ EY) as [EK EWl].
+           assert (NM : memN c' cl = false).
+           { destruct (memN c' cl) eqn:M; [|reflexivity]. destruct (CLS c' M) as (eo & CO & EE & _). destruct (NR eo CO EE). }
+           assert (MK : m16_mark b y1 = y1).
+           { unfold m16_mark. fold cl. rewrite Y1C, NM, andb_false_r. reflexivity. }
+           rewrite MK.
+           assert (OPEN_NE : x_open y = true -> beq_bytes (x_id y) e = false).
+           { intro XY. destruct (beq_bytes (x_id y) e) eqn:BE; [|reflexivity]. exfalso. apply bb_eq in BE.
+             rewrite (pc_open _ _ _ _ _ _ PY) in XY. destruct (wf_open s W c' oy GY XY) as (AO & _).
+             rewrite <- (pc_id _ _ _ _ _ _ PY), BE in AO. apply (NR oy); [unfold client_of; rewrite AO; exact GY|symmetry; apply (get_obj_conn _ _ _ GY)]. }
+           destruct (beq_bytes (x_id y) e && negb (x_conn y =? c)) eqn:CND.
+           2:{ assert (E1 : y1 = y) by (unfold y1, m16_takeover; rewrite CND; reflexivity). rewrite E1.
+               apply (pc_frame k s s' h0 b y oy py PY); [exists oy'; auto|exact SUBY|exact VS]. }
+           apply andb_true_iff in CND. destruct CND as [BE _].
+           assert (YCL : x_open y = false) by (destruct (x_open y) eqn:XY; [rewrite (OPEN_NE eq_refl) in BE; discriminate|reflexivity]).
+           assert (NSE : ~ srcE s' c').
+           { apply (GONE c' oy GY). rewrite <- (pc_id _ _ _ _ _ _ PY). apply bb_eq, BE. }
+           destruct (x_wst y) as [| | |t due0| | | |] eqn:XS;
+             try (assert (E1 : y1 = y) by (unfold y1, m16_takeover; rewrite XS; destruct (_ && _); reflexivity); rewrite E1;
+                  apply (pc_frame k s s' h0 b y oy py PY); [exists oy'; auto|exact SUBY|exact VS]).
+           ++ rewrite ST in YCL. discriminate.
+           ++ destruct ST as (PD & _). destruct (wkn_fields _ _ EK) as (_ & _ & _ & _ & KP).
+              assert (E1 : y1 = set_wst y (if cp_clean p then WFailed else WCancelled)).
+              { unfold y1, m16_takeover. rewrite XS, BE. destruct (negb (x_conn y =? c)); [|exfalso]. 
+                - cbn [andb]. destruct (cp_clean p); reflexivity.
+                - rewrite YC in *. destruct (c' =? c) eqn:E2; [apply N.eqb_eq in E2; congruence|]. cbn in *. congruence. }
+              rewrite E1. apply (pc_frame2 k s s' h0 b y oy py oy' _ PY); try rewrite YC; auto.
+              ** intro H. congruence.
+              ** unfold status_ok. cbn [x_wst set_wst x_with x_conn]. rewrite YC. destruct (cp_clean p).
+                 --- split; [congruence|]. intro H. contradiction.
+                 --- intros [[_ AR]|H]; [congruence|contradiction].
+    + intros c' oc' GC'. rewrite FF. destruct (c' =? c) eqn:EQ; [eexists; reflexivity|]. apply N.eqb_neq in EQ.
+      assert (EXS : exists oc, get_obj c' (st_objs s) = Some oc).
+      { destruct (client_of s e) as [eo|] eqn:CO.
+        - destruct (N.eq_dec c' (o_conn eo)) as [E|NE].
+          + destruct (client_of_reg s e eo W CO) as (_ & GE & _). exists eo. rewrite E. exact GE.
+          + destruct (wk_obj_back s s' _ oc' (OTH c' EQ (fun eo' H => ltac:(inversion H; subst; exact NE))) GC') as (oc & GC & _). exists oc. exact GC.
+        - destruct (wk_obj_back s s' _ oc' (OTH c' EQ (fun eo' H => ltac:(discriminate H))) GC') as (oc & GC & _). exists oc. exact GC. }
+      destruct EXS as (oc & GC). destruct (KO c' oc GC) as (y & FY). rewrite FY. eexists. reflexivity.
+  - rewrite VV. unfold lost_viols. apply flat_map_tag. intros x _.
+    destruct (beq_bytes (x_id x) e && negb (x_conn x =? c) && cp_clean p && negb (published_in [] (x_conn x))) eqn:CND; [|constructor].
+    destruct (x_wst x); try constructor. constructor; [|constructor]. split; [reflexivity|]. right. right. right. right. split; [reflexivity|].
+    exists c, now, p, true, e. split; [exact BOP|]. apply andb_true_iff in CND. destruct CND as [CND _]. apply andb_true_iff in CND. tauto.
+Qed.
